@@ -180,4 +180,15 @@ var props = map[string]Prop{
 			prog("programs", "./harness/c04", "TestC04Programs", 3, 60, 8, 16),
 		},
 	},
+	"C12": {
+		ID: "C12", Level: "exploration",
+		Rule: "rapid generates modules of 2-8 packages forming an import DAG (plus a tracing leaf package): 1-3 files per package with names whose lexical order differs from generation order; 1-6 package-level variables per package whose initialisers trace and depend on variables of higher dependency rank declared anywhere (later, other files), on functions that read variables (hidden dependencies), on variables and functions of imported packages, optionally wrapped in closures; 0-3 init functions per file; blank imports where a file does not use an import; main importing a random subset in an order unrelated to the DAG. A quarter of the modules also initialise through sync/atomic, sync.Once, sync.Map, reflect and strconv (std packages llgo overlays), at O0 only; the others are import-free and built at O0 and O2 (thorough: also Oz and O2+nogc). The complete trace and exit code must equal gc's. Non-trivial: some variable initialised out of declaration order because of a dependency AND (some package reachable by >= 2 import paths or an initialiser reading another package); distinct by module hash.",
+		Assumptions: []string{
+			"gc (go1.24) defines the order (the spec fixes it for these programs)",
+			"only build mode exe is exercised",
+		},
+		Jobs: []Job{
+			prog("modules", "./harness/c12", "TestC12Modules", 2, 60, 8, 16),
+		},
+	},
 }
